@@ -517,9 +517,13 @@ func (pd *perRawBitData) parseSequenceOf(v reflect.Value, params fieldParameters
 		}
 	} else {
 		perTrace(3, fmt.Sprintf("Encoding Length(%d) of \"SEQUENCE OF\" with Semi-Constraint Range(%d..)", numElements, lb))
-		pd.appendAlignBits()
-		pd.bytes = append(pd.bytes, byte(numElements&0xff))
-		perTrace(1, perRawBitLog(8, len(pd.bytes), pd.bitsOffset, uint64(numElements)))
+		if numElements >= 16384 {
+			return fmt.Errorf("SEQUENCE OF with %d elements needs a fragmented length, which is not supported", numElements)
+		}
+		// X.691 11.9.3.5-7: general length determinant (one octet up to 127, two octets up to 16383)
+		if err := pd.appendLength(-1, uint64(numElements)); err != nil {
+			return err
+		}
 	}
 	perTrace(2, fmt.Sprintf("Encoding  \"SEQUENCE OF\" struct %s with len(%d)", v.Type().Elem().Name(), numElements))
 	params.sizeExtensible = false
